@@ -20,16 +20,16 @@ from vlib import VERIF
 #   sims: (simulation module, behaviours quick, behaviours thorough, depth)
 #   mc: (exhaustive config module, quick?, timeout s)
 PIPE = {
-    "C01": dict(clauses=["C01_"], sims=[("Sim_multi", 60, 600, 170), ("Sim_multi_crash", 40, 500, 170)], mc=[("MC_c01q", 400, "quick"), ("MC_c01", 1500, "thorough")]),
+    "C01": dict(clauses=["C01_"], sims=[("Sim_multi", 60, 600, 170), ("Sim_multi_crash", 40, 500, 170), ("Sim_multi_dev", 20, 300, 170)], mc=[("MC_c01q", 400, "quick"), ("MC_c01", 1500, "thorough")]),
     "C02": dict(clauses=["C02_"], sims=[("Sim_base", 50, 500, 150), ("Sim_conn", 50, 500, 150), ("Sim_multi", 20, 300, 170)], mc=[("MC_c02", 900, "both"), ("MC_c07p", 2400, "thorough")], corpus=[("MC_c07p", 150, 2000)], crashpoints=True),
     "C04": dict(clauses=["C04_"], sims=[("Sim_conn", 80, 800, 150), ("Sim_rollback", 30, 400, 170)], mc=[("MC_c04q", 400, "quick"), ("MC_c04", 1500, "thorough")], data=True),
-    "C05": dict(clauses=["C05_"], sims=[("Sim_base", 60, 600, 150), ("Sim_multi", 40, 400, 170)], mc=[("MC_c05", 900, "both")], data=True),
-    "C06": dict(clauses=["C06_"], sims=[("Sim_rollback", 100, 1000, 170)], mc=[("MC_c06", 900, "both")], data=True),
+    "C05": dict(clauses=["C05_"], sims=[("Sim_base", 60, 600, 150), ("Sim_multi", 40, 400, 170), ("Sim_rollback", 30, 400, 170)], mc=[("MC_c05", 900, "both"), ("MC_c05r", 900, "both")], data=True, focus=r'^<<"prop", "\w+", "DI'),
+    "C06": dict(clauses=["C06_"], sims=[("Sim_rollback", 100, 1000, 170), ("Sim_rbconn", 30, 400, 170)], mc=[("MC_c06", 900, "both")], data=True, crashpoints=True, focus=r'"rollback"'),
     "C07": dict(clauses=["C07_"], sims=[("Sim_crash", 80, 800, 150), ("Sim_multi_crash", 40, 400, 170)], mc=[("MC_c07", 900, "both"), ("MC_c07p", 2400, "thorough")], corpus=[("MC_c07p", 150, 2000)], crashpoints=True),
     "C08": dict(clauses=["C08_"], sims=[("Sim_client", 90, 900, 150), ("Sim_base", 30, 300, 150), ("Sim_dev", 30, 300, 150), ("Sim_rollback", 20, 200, 170)], mc=[("MC_c08", 900, "both")], delays=True),
-    "C09": dict(clauses=["C09_"], sims=[("Sim_base", 60, 800, 150), ("Sim_dev", 40, 400, 150), ("Sim_multi", 30, 300, 170), ("Sim_rbconn", 40, 400, 170)], mc=[("MC_c09", 900, "both"), ("MC_c09r", 900, "both")]),
+    "C09": dict(clauses=["C09_"], sims=[("Sim_base", 60, 800, 150), ("Sim_dev", 40, 400, 150), ("Sim_multi", 30, 300, 170), ("Sim_rbconn", 40, 400, 170), ("Sim_multi_dev", 20, 300, 170)], mc=[("MC_c09", 900, "both"), ("MC_c09r", 900, "both")]),
     "C10": dict(clauses=["C10_"], sims=[("Sim_conn", 100, 1000, 150)], mc=[("MC_c10", 900, "both")]),
-    "C11": dict(clauses=["C11_"], sims=[("Sim_dev", 100, 1000, 150), ("Sim_multi", 20, 200, 170)], mc=[("MC_c11", 900, "both")], crashpoints=True),
+    "C11": dict(clauses=["C11_"], sims=[("Sim_dev", 100, 1000, 150), ("Sim_multi", 20, 200, 170), ("Sim_multi_dev", 40, 500, 170)], mc=[("MC_c11", 900, "both")], crashpoints=True),
 }
 
 EPILOGUE = [{"k": "drain"}, {"k": "heal"}, {"k": "drain"}, {"k": "observe"}, {"k": "probe"}, {"k": "drain"}, {"k": "observe"}]
@@ -291,7 +291,14 @@ def check(prop, tier, replay_file=None):
                 ctxs = sorted(cover)
                 want = conf.get("cover", (150, 4000))[0 if tier == "quick" else 1]
                 if len(ctxs) > want:
-                    ctxs = sorted(random.Random(sd).sample(ctxs, want))
+                    # the contexts in which the reconcile branches the property is about decide (validation for C05,
+                    # rollbacks for C06, ...) are taken first, up to two thirds of the sample; the rest is a seeded sample
+                    rs = random.Random(sd)
+                    foc = [c for c in ctxs if conf.get("focus") and re.search(conf["focus"], c)]
+                    rs.shuffle(foc)
+                    foc = foc[: (2 * want) // 3]
+                    rest = [c for c in ctxs if c not in set(foc)]
+                    ctxs = sorted(foc + rs.sample(rest, want - len(foc)))
                 res["contexts_replayed"] = len(ctxs)
                 for c in ctxs:
                     s = normalise(cover[c], "cover-%s-%s" % (module, hashlib.sha1(c.encode()).hexdigest()[:10]), sd)
@@ -352,6 +359,32 @@ def check(prop, tier, replay_file=None):
             raise vlib.Inconclusive("infrastructure failures during replay:\n" + "\n".join(bad_infra[:10]))
         # 4. trace validation
         per_trace = validate_batches(specdir, tracedir, names, clauses, True, scenarios)
+        # 4b. amplification: a behaviour on which the real code left the specification (drift) without breaking a clause
+        #     is replayed again under every resume schedule (which pending work is served first, heal before / after)
+        #     and other seeds: if the divergence matters to the property, one of these makes it visible.  The verdict
+        #     still only comes from the clauses on the recorded real states; on a conforming tree nothing drifts and
+        #     nothing is added.
+        if not replay_file:
+            by0 = {s["name"]: s for s in scenarios}
+            drifted = [nm for nm in names if per_trace[nm]["drift"] and not per_trace[nm]["viol"] and origin.get(nm) != "slow-consumer"]
+            random.Random(sd).shuffle(drifted)
+            amp = []
+            for nm in drifted[:40]:
+                base = by0[nm]
+                body = [st for st in base["steps"] if st["k"] not in ("heal", "observe", "probe") and not (st["k"] == "drain")]
+                for ai, (pol, hf) in enumerate([(p, h) for p in POLICIES for h in (False, True)]):
+                    v = dict(base, name="%s-amp%d" % (nm, ai), steps=body + epilogue_of(pol, hf), seed=base["seed"] + 7919 * (ai + 1))
+                    amp.append(v)
+                    origin[v["name"]] = "amplified"
+            if amp:
+                infra2 = replay(bins, amp, tracedir)
+                if infra2:
+                    raise vlib.Inconclusive("infrastructure failures during replay:\n" + "\n".join(infra2[:10]))
+                anames = [s["name"] for s in amp if os.path.exists(os.path.join(tracedir, s["name"] + ".ndjson"))]
+                per_trace.update(validate_batches(specdir, tracedir, anames, clauses, True, scenarios + amp))
+                scenarios += amp
+                names += anames
+                log("amplified %d drifting behaviours into %d" % (len(drifted[:40]), len(anames)))
         # 5. classify
         known = vlib.load_known()
         by_name = {s["name"]: s for s in scenarios}
